@@ -48,6 +48,7 @@ THEOREMS = [
     "Nix.C13.parent_source_ids_code",
     "Nix.C13.referring_ids_match",
     "Nix.C13.referring_ids_code",
+    "Nix.C13.find_related_ids_code",
 ]
 ASSUMPTIONS = [
     "entities are identified by a key (creation counter) standing for the uuid; uuid4 freshness is assumed; ids "
@@ -288,6 +289,9 @@ class Impl:
             # optional 5th element: the id the caller supplies (`oid=`), any text (stored as given when
             # util.is_uuid accepts it, otherwise the library makes an id)
             kw = {"oid": line[4]} if len(line) > 4 else {}
+            if kw and isinstance(kw["oid"], list):
+                import uuid
+                kw["oid"] = uuid.UUID(kw["oid"][1])        # ["uuid", text]: the id as a uuid.UUID object
             if line[1] is None:
                 s = f.create_section(line[2], line[3], **kw)
                 k = self._register("section", [line[2]], s)
@@ -511,6 +515,15 @@ def spell_uuid(rng, how=None):
     return "".join(c.upper() if rng.random() < 0.5 else c for c in u)     # mixed case
 
 
+def is_uuid_text(t):
+    import uuid
+    try:
+        uuid.UUID(t)
+        return True
+    except ValueError:
+        return False
+
+
 def gen_canon_lines(rng, n):
     """`["canon", text]` lines: spellings uuid.UUID reads (and near misses)"""
     import uuid
@@ -598,6 +611,8 @@ def _gen_op(impl, rng, phase):
         # now and then a text that is no id at all (the library then makes one itself)
         if rng.random() < impl.p_oid:
             line.append(spell_uuid(rng) if rng.random() < 0.95 else rng.choice(["", "not-an-id", "1234", "g" * 32]))
+            if rng.random() < 0.1 and is_uuid_text(line[4]):
+                line[4] = ["uuid", line[4]]              # handed over as uuid.UUID object
         return line
     if r < 0.20:
         if len(by["block"]) >= 3 and rng.random() < 0.8:
